@@ -9,6 +9,7 @@ mod heapwatch;
 mod lang;
 mod ops;
 mod probe;
+mod residue;
 mod rng;
 mod suite;
 mod toy;
